@@ -27,7 +27,7 @@ from .. import Undecided
 from ..expr import canon, lin, call_name, unparse, negate, conj
 from ..model import stmt_text
 from ..expr import cmp_form
-from ..lts import Classifier, extract, equivalent, compile_spec, seq, alt, star, lit, opt
+from ..lts import Classifier, extract, compare, compile_spec, seq, alt, star, lit, opt
 
 EXPLANATION = __doc__
 LEVEL_RULE = 'one obligation per clause instance on the paths / loop summaries of Sequence, Optional, Ref and the normalisers'
@@ -204,8 +204,11 @@ def check_sequence_unpack(ctx, sq):
                 ctx.undecided(rule, fi, name, str(e), fi.node.lineno, clause='c')
                 continue
             ctx.unit('automaton_states', code.n)
-            diff = equivalent(code, compile_spec(_seq_spec(mode)))
-            if diff is None:
+            cmp_ = compare(code, compile_spec(_seq_spec(mode)))
+            diff = cmp_[1:] if cmp_[0] == 'differs' else None
+            if cmp_[0] == 'foreign':
+                ctx.undecided(rule, fi, name, 'Sequence.unpack does things the declared semantics does not speak about (%s): its event language cannot be compared' % ', '.join(cmp_[1][:4]), fi.node.lineno, clause='c')
+            elif diff is None:
                 ctx.holds(rule, fi, '%s: event language of Sequence.unpack' % name,
                           'fresh list stored first; %s; every pass parses one element and appends the scratch value; the cursor after the last element is returned'
                           % ('range(count) elements, nothing consumed when count <= 0 or when is false' if count_set else 'one element, then until after each element, stop on the first truthy result'),
